@@ -89,6 +89,7 @@ type ConnPlan struct {
 type Reaction struct {
 	Kind  string `json:"kind"` // ok | late | dup | unknown | never
 	Delay int64  `json:"delay,omitempty"`
+	Var   int    `json:"var,omitempty"` // 0: the minimal response body; >0: a body with content, derived from this number
 }
 
 // Actor is a sequential script of environment operations.
@@ -161,6 +162,8 @@ type SentFrame struct {
 	Off   int    `json:"off,omitempty"`   // chunk: offset
 	Chunk bool   `json:"chunk,omitempty"` // a raw file-data unit (not a JT808 frame)
 	Name  HexStr `json:"name,omitempty"`
+	// C20: the frame carries the simulator's own default body (CreateDefaultCommandData)
+	Default bool `json:"default,omitempty"`
 }
 
 // Transfer is one sub-packaged message.
